@@ -34,7 +34,8 @@ from . import semantics
 
 DEBUG = False
 # (synthesiser oracle, basis, cut size, cuts enumerated in reverse order)
-CONFIGS = [('search', 'XAIG', 2, False), ('search', 'XAIG', 3, False), ('search', 'AIG', 2, True), ('search', 'AIG', 3, False), ('search', 'XAIG', 3, True), ('none', 'XAIG', 3, False), ('none', 'AIG', 2, True)]
+CONFIGS = [('search', 'XAIG', 2, False), ('search', 'XAIG', 3, False), ('search', 'AIG', 2, True), ('search', 'AIG', 3, False), ('search', 'XAIG', 3, True), ('none', 'XAIG', 3, False), ('none', 'AIG', 2, True),
+           ('exact_rev', 'AIG', 3, False), ('exact_rev', 'XAIG', 2, True)]
 SUBC = 'cirbo.minimization.subcircuit'
 SEARCH = 'cirbo.synthesis.circuit_search'
 
@@ -72,6 +73,9 @@ def _family(tier):
         ([('a', 'INPUT', ()), ('z1', 'INPUT', ()), ('z2', 'INPUT', ()), ('o1', 'NOT', ('a',)), ('b', 'XOR', ('o1', 'z1', 'z2')), ('t', 'AND', ('o1', 'b')), ('u', 'OR', ('o1', 'b')), ('o2', 'XOR', ('t', 'u'))], ['o2', 'b']),
         # a cone with two complementary outputs, neither computed by a NOT gate: the replacement has as many gates as the region and takes over its labels
         ([('a', 'INPUT', ()), ('b', 'INPUT', ()), ('c', 'INPUT', ()), ('e', 'INPUT', ()), ('g0', 'AND', ('a', 'c')), ('g1', 'NOR', ('c', 'b')), ('g2', 'OR', ('g0', 'b')), ('g3', 'NXOR', ('c', 'g2')), ('ng', 'XOR', ('c', 'g2')), ('p2', 'GT', ('g3', 'e')), ('p3', 'GEQ', ('ng', 'e'))], ['p2', 'p3']),
+        # the complement of a cut input next to improvable outputs of the same cone (and its mirror image)
+        ([('x0', 'INPUT', ()), ('x1', 'INPUT', ()), ('g0', 'AND', ('x0', 'x1')), ('g1', 'GEQ', ('x0', 'x1')), ('g2', 'XOR', ('g0', 'x0')), ('g3', 'NOR', ('x0', 'g1')), ('g4', 'NOT', ('g2',)), ('ni', 'NOT', ('x0',))], ['g2', 'ni', 'g1']),
+        ([('x0', 'INPUT', ()), ('x1', 'INPUT', ()), ('g0', 'AND', ('x0', 'x1')), ('g1', 'GEQ', ('x1', 'x0')), ('g2', 'XOR', ('g0', 'x1')), ('g3', 'NOR', ('x1', 'g1')), ('g4', 'NOT', ('g2',)), ('ni', 'NOT', ('x1',))], ['g2', 'ni', 'g1']),
         # a later cone shares an inner gate of a cone that was replaced
         ([('x0', 'INPUT', ()), ('x1', 'INPUT', ()), ('x2', 'INPUT', ()), ('g0', 'XOR', ('x2', 'x0')), ('g1', 'NOR', ('x2', 'x2')), ('g2', 'NAND', ('x1', 'g1')), ('g3', 'NOR', ('x0', 'x0')), ('g4', 'NOR', ('x1', 'g1')), ('g5', 'NOT', ('g2',)), ('g6', 'LT', ('g4', 'g2'))], ['g6']),
         # a cone output equal to a leaf that other gates read
@@ -103,9 +107,17 @@ def _equivalent_gates(spec):
     tt = {}
     for bits in itertools.product((False, True), repeat=len(inputs)):
         v = dict(zip(inputs, bits))
-        for l, t, ops in spec:
-            if t != 'INPUT':
-                v[l] = semantics.value(t, [v[o] for o in ops])
+        by = {l: (t, ops) for l, t, ops in spec}
+
+        def ev(l, depth=0):
+            if l not in v:
+                if depth > len(by):
+                    raise AnalysisError('a model circuit of the minimisation fold has a cycle')
+                t, ops = by[l]
+                v[l] = semantics.value(t, [ev(o, depth + 1) for o in ops])
+            return v[l]
+        for l, t, ops in spec:       # (storage order need not be operands-first)
+            ev(l)
         for l in v:
             tt.setdefault(l, []).append(v[l])
     seen = {}
@@ -140,9 +152,19 @@ class _Finder(Host):
         ops = getattr(self.basis, 'value', self.basis)
         codes = sorted({op.value for op in ops})
         from .rules.C06 import enumerate_structures, natural_values
-        for N in range(1, min(self.n_gates, 3 if n <= 2 else 2) + 1):
+        sizes = range(1, min(self.n_gates, 3 if n <= 2 else 2) + 1)
+        exact = _Finder.mode == 'exact_rev'
+        if exact:
+            # what the real synthesiser does: a circuit of exactly the requested number of gates (some of them possibly idle),
+            # here the last one in enumeration order -- pseudo-unary gates and late wires first.  Beyond the enumeration
+            # bound the search gives up like a solver that runs out of time.
+            if self.n_gates > (3 if n <= 2 else 2):
+                raise InterpRaise('NoSolutionError')
+            sizes = [self.n_gates]
+            codes = codes[::-1]
+        for N in sizes:
             gates = list(range(n, n + N))
-            pair_choices = [list(itertools.combinations(range(g), 2)) for g in gates]
+            pair_choices = [list(itertools.combinations(range(g), 2))[::-1 if exact else 1] for g in gates]
             for preds in itertools.product(*pair_choices):
                 for tts in itertools.product(codes, repeat=N):
                     pd, td = dict(zip(gates, preds)), dict(zip(gates, tts))
@@ -242,7 +264,7 @@ def fold_minimize(ck: Checker, R: str, handmade_only=False):
                         buckets['interface'].append(f'the result cannot be evaluated on {desc}')
                         continue
                     wrong = after_tt != before_tt
-                    if mode == 'search' and cut_size == 3 and not rev and not users_first:
+                    if mode in ('search', 'exact_rev') and cut_size == 3 and not rev and not users_first:
                         # the same run with validation enabled: FailedValidationError exactly when the unvalidated result is wrong
                         c2 = M.new_circuit(spec, outs)
                         current['c'] = c2
@@ -257,7 +279,9 @@ def fold_minimize(ck: Checker, R: str, handmade_only=False):
                                 buckets['validation'].append(f'with validation enabled the run raises {e.exc_name} on {desc}')
                         if failed != wrong and not (failed is False and has_equiv and wrong is False):
                             buckets['validation'].append((f'validation passes a result whose truth table differs' if wrong else 'validation reports a failure although the result has the same truth table') + f' on {desc}')
-                    if not wrong and is_hand and mode == 'search' and cut_size == 3 and not rev:
+                    # (only when it is again a circuit over the supported gate set: the synthesiser may hand back LNOT gates, which
+                    # minimize_subcircuits documents as unsupported input)
+                    if not wrong and is_hand and mode in ('search', 'exact_rev') and cut_size == 3 and not rev and all(g.gate_type.var in SUPPORTED + ('INPUT',) for g in d['_gates'].values()):
                         # the result is a circuit like any other: minimising it once more must preserve the function again
                         current['c'] = res
                         it.steps = 0
